@@ -62,6 +62,14 @@ def run(tier, seed, replay):
     behsm = [graphm.behaviour(p) for p in pathsm] + [graph2.behaviour(p) for p in paths2]
     nm, sm, dm = udprelay.replay(v, binary, behsm, variants[1:], seed, "lifecycle replay")
     n1, s1, d1 = n1 + nm, s1 + sm, max(d1, dm)
+    # (2b) session relay (Shadowsocks 2022 server; minimum NAT timeout 61 s): lifecycle and Stop
+    gs, _ = udprelay.model(dict(Sess='{"s1"}', Targets='{"ip","rej"}', Domains="{}", MaxSend=1, ChanCap=1, MaxReply=1, MaxTimer=0, Keyed='"sid"'), props=False, edges=True)
+    graphs = udprelay.urgent_filter(vlib.Graph(gs), drop=("Move", "Forged"))
+    pathss, lefts = graphs.cover(seed=seed, max_len=40, max_paths=None if big else 250)
+    svars = [{"server": "ss2022", "batchMode": "no", "natTimeout": "61s"}, {"server": "ss2022", "batchMode": "sendmmsg", "natTimeout": "61s"}]
+    ns, ss_, ds = udprelay.replay(v, binary, [graphs.behaviour(p) for p in pathss], svars, seed, "session relay lifecycle replay")
+    v.coverage["replay_graphs"].append({"relay": "session (ss2022)", "distinct": gs.distinct, "edges": len(graphs.edges), "paths": len(pathss), "uncovered_edges": lefts})
+    n1, s1, d1 = n1 + ns, s1 + ss_, max(d1, ds)
     # (3) timers: eviction after the NAT timeout and a fresh session afterwards (real time, short timeout)
     g3, _ = udprelay.model(dict(Sess='{"s1"}', Targets='{"ip"}', Domains="{}", MaxSend=3, ChanCap=3, MaxReply=1, MaxTimer=2), props=False, edges=True)
     graph3 = udprelay.urgent_filter(vlib.Graph(g3))
@@ -81,6 +89,6 @@ def run(tier, seed, replay):
     v.coverage["eviction_behaviours"] = n3
     v.coverage["distinct_step_classes"] = max(d1, d3)
     v.coverage["exhaustive"] = big and left == 0 and left2 == 0
-    v.assumptions += ["kernel UDP semantics on loopback", "NAT relays (socks5 server, direct client) generic and sendmmsg paths; the session relays share the skeleton",
+    v.assumptions += ["kernel UDP semantics on loopback", "NAT relays (socks5 server) and session relays (Shadowsocks 2022 server) with the direct client, generic and sendmmsg paths; eviction by timeout is replayed on NAT relays only (the session relay's minimum NAT timeout is 61 s)",
                       "Stop is 'prompt' when it returns within min(natTimeout/3, 8 s)", "the re-arm guard of the spec is bound to the code by the gated replays"]
     return v.finish()
